@@ -26,16 +26,19 @@ def explore(ctx, which):
     dist = {"rulesets": 0, "preterminals": 0, "with_ties": 0, "repeated_type": 0, "single_group_var": 0,
             "capped": 0, "load_rejected": 0, "flags": {}}
     for k in range(n):
-        rs = rulesets.gen_ruleset(ctx.rng)
+        rs = rulesets.gen_ruleset(ctx.rng) if k % 10 != 3 else rulesets.gen_near_tie_ruleset(ctx.rng)
         sb, scs, folder = ctx.rng.choice(FLAGSETS)
+        qsize = [None, None, 2, 6, 16][k % 5]
+        dist["near_tie_family"] = dist.get("near_tie_family", 0) + (k % 10 == 3)
+        dist["small_max_queue_size"] = dist.get("small_max_queue_size", 0) + (qsize is not None)
         try:
             g = impl_next.load_grammar(rs, sc, sb, scs, folder)
         except Exception:
             dist["load_rejected"] += 1
             continue
-        replay = {"ruleset": rs, "skip_brute": sb, "skip_case": scs, "folder": folder}
+        replay = {"ruleset": rs, "skip_brute": sb, "skip_case": scs, "folder": folder, "queue_size": qsize}
         try:
-            items, problems, capped, q = impl_next.full_stream(g, cap=ctx.scale(600, 3000))
+            items, problems, capped, q = impl_next.full_stream(g, cap=ctx.scale(600, 3000), queue_size=qsize)
         except Exception as e:
             # the implementation itself fails on a well-formed ruleset: nothing is emitted from here on
             vio.append({"sig": "%s:raised:%s" % (which, type(e).__name__),
@@ -63,7 +66,6 @@ def explore(ctx, which):
             seen.add(canon)
             if ties or rep or single:
                 nontrivial += 1
-        replay = {"ruleset": rs, "skip_brute": sb, "skip_case": scs, "folder": folder}
         vio += oracle(which, g, items, problems, replay)
         # determinism inside one process: a second queue gives the identical sequence
         items2, _, _, _ = impl_next.full_stream(g, cap=len(items) + 5, check_heap=False)
@@ -98,7 +100,9 @@ def explore(ctx, which):
             corr.append(("next-run:" + name, True, ""))
     rule = ("random rulesets (1-4 base structures + duplicates, 1-5 positions, types drawn with repetition, 1-5 "
             "probability groups per variable, probabilities from a pool built to collide: ties, dyadics, one-ulp "
-            "neighbours, subnormals, 0.0, 1.0), each under one of 6 flag sets; run to exhaustion; non-trivial = has two "
+            "neighbours, subnormals, 0.0, 1.0; every tenth ruleset from the near-tie family: three or four two-group variables whose "
+            "probability ratios agree to 9-16 digits without being equal), each under one of 6 flag sets; in 3 of 5 runs the queue's "
+            "existing max_queue_size attribute is set to 2/6/16; run to exhaustion; non-trivial = has two "
             "pre-terminals of equal probability, a repeated type in a structure, or a one-group variable; distinct by "
             "loaded tables")
     return {"evaluations": dist["rulesets"], "distinct_nontrivial": nontrivial, "rule": rule, "samples": samples,
@@ -150,7 +154,7 @@ def replay(ctx, data):
     g = impl_next.load_grammar(inp["ruleset"], sc, inp.get("skip_brute", False), inp.get("skip_case", False),
                                inp.get("folder", "Grammar"))
     try:
-        items, problems, capped, q = impl_next.full_stream(g, cap=100000)
+        items, problems, capped, q = impl_next.full_stream(g, cap=100000, queue_size=inp.get("queue_size"))
     except Exception as e:
         return [{"sig": "%s:raised:%s" % (ctx.prop, type(e).__name__), "what": "PcfgQueue.next() raised %s: %s" % (type(e).__name__, e), "replay": inp}]
     return oracle(ctx.prop, g, items, problems, inp)
